@@ -50,3 +50,34 @@ Definition decode_req (psl : bytes -> bytes * bool) (s : bytes) : res request :=
     end
   | _ => Err
   end.
+
+(* ---- storages and engines ---- *)
+From UF Require Import Model.Rule Model.Storage Model.Engines.
+
+Definition parse_flist (s : bytes) : option flist :=
+  match split_byte ":"%byte s with
+  | [id; ig; c] =>
+    match Z_of_dec id, hex_decode c with
+    | Some id, Some c => Some {| rl_id := id; rl_content := c; rl_ignore_cosmetic := dec_bool ig |}
+    | _, _ => None
+    end
+  | _ => None
+  end.
+Definition parse_storage (s : bytes) : option storage := opt_all (map parse_flist (split_byte ";"%byte s)).
+
+Fixpoint assoc_z {A} (k : Z) (l : list (Z * A)) : option A :=
+  match l with [] => None | (k', v) :: l' => if Z.eqb k k' then Some v else assoc_z k l' end.
+
+(* sorted set of byte strings: the canonical form both sides print *)
+Fixpoint dedup_sorted (l : list bytes) : list bytes :=
+  match l with
+  | a :: ((b :: _) as l') => if bytes_eqb a b then dedup_sorted l' else a :: dedup_sorted l'
+  | _ => l
+  end.
+Definition sorted_set (l : list bytes) : bytes := enc_list (dedup_sorted (sort_by bytes_leb l)).
+
+Fixpoint res_all {A} (l : list (res A)) : res (list A) :=
+  match l with
+  | [] => Ok []
+  | r :: l' => do a <- r; do rest <- res_all l'; Ok (a :: rest)
+  end.
